@@ -317,52 +317,52 @@ section Streams
 variable {U : Type}
 namespace World
 
-@[simp] theorem fail'_ds (w : World U) (m : String) : (w.fail' m).ds = w.ds := by
+@[simp] theorem fail'_ds_u (w : World U) (m : String) : (w.fail' m).ds = w.ds := by
   unfold fail'; split <;> rfl
-@[simp] theorem fail'_rng (w : World U) (m : String) : (w.fail' m).rng = w.rng := by
+@[simp] theorem fail'_rng_u (w : World U) (m : String) : (w.fail' m).rng = w.rng := by
   unfold fail'; split <;> rfl
-@[simp] theorem emit_ds (w : World U) (e : Event U) : (w.emit e).ds = w.ds := rfl
-@[simp] theorem emit_rng (w : World U) (e : Event U) : (w.emit e).rng = w.rng := rfl
-@[simp] theorem logRec_ds (w : World U) (r : LogRec U) : (w.logRec r).ds = w.ds := by
+@[simp] theorem emit_ds_u (w : World U) (e : Event U) : (w.emit e).ds = w.ds := rfl
+@[simp] theorem emit_rng_u (w : World U) (e : Event U) : (w.emit e).rng = w.rng := rfl
+@[simp] theorem logRec_ds_u (w : World U) (r : LogRec U) : (w.logRec r).ds = w.ds := by
   unfold logRec; split <;> rfl
-@[simp] theorem logRec_rng (w : World U) (r : LogRec U) : (w.logRec r).rng = w.rng := by
+@[simp] theorem logRec_rng_u (w : World U) (r : LogRec U) : (w.logRec r).rng = w.rng := by
   unfold logRec; split <;> rfl
-@[simp] theorem logRec_err (w : World U) (r : LogRec U) : (w.logRec r).err = w.err := by
+@[simp] theorem logRec_err_u (w : World U) (r : LogRec U) : (w.logRec r).err = w.err := by
   unfold logRec; split <;> rfl
-@[simp] theorem pin_ds (w : World U) (sid : Nat) (i : Option Nat) : (w.pin sid i).ds = w.ds := by
+@[simp] theorem pin_ds_u (w : World U) (sid : Nat) (i : Option Nat) : (w.pin sid i).ds = w.ds := by
   unfold pin; split; rfl; split <;> rfl
-@[simp] theorem pin_rng (w : World U) (sid : Nat) (i : Option Nat) : (w.pin sid i).rng = w.rng := by
+@[simp] theorem pin_rng_u (w : World U) (sid : Nat) (i : Option Nat) : (w.pin sid i).rng = w.rng := by
   unfold pin; split; rfl; split <;> rfl
 
-theorem act_ds_rng (c : CtlClass) (w : World U) (a : Action U) :
+theorem act_ds_rng_u (c : CtlClass) (w : World U) (a : Action U) :
     (act c w a).ds = w.ds ∧ (act c w a).rng = w.rng := by
   cases a <;> simp only [act] <;> (try split) <;>
     simp [ctlRequest, ctlSucceed, ctlFail, planAppend, planClear, setPlan] <;>
     (repeat' split) <;> simp
 
-theorem foldl_act_ds_rng (c : CtlClass) : ∀ (d : Decision U) (w : World U),
+theorem foldl_act_ds_rng_u (c : CtlClass) : ∀ (d : Decision U) (w : World U),
     (d.foldl (act c) w).ds = w.ds ∧ (d.foldl (act c) w).rng = w.rng
   | [], _ => ⟨rfl, rfl⟩
   | a :: d, w => by
     simp only [List.foldl_cons]
-    have h1 := foldl_act_ds_rng c d (act c w a)
-    have h2 := act_ds_rng c w a
+    have h1 := foldl_act_ds_rng_u c d (act c w a)
+    have h2 := act_ds_rng_u c w a
     exact ⟨h1.1.trans h2.1, h1.2.trans h2.2⟩
 
 /-- One callback consumes exactly one decision and no random number. -/
-theorem invoke_streams (w : World U) (sid : Nat) (m : Method) (slot : Nat) :
+theorem invoke_streams_u (w : World U) (sid : Nat) (m : Method) (slot : Nat) :
     (w.invoke sid m slot).2 = w.ds.headD [] ∧ (w.invoke sid m slot).1.ds = w.ds.tail ∧
     (w.invoke sid m slot).1.rng = w.rng := by
   unfold invoke
   split
   · next h => simp [h]
   · next d rest h =>
-    simp only [h, List.headD_cons, List.tail_cons, emit_ds, emit_rng]
-    have := foldl_act_ds_rng m.cls d { w with ds := rest }
+    simp only [h, List.headD_cons, List.tail_cons, emit_ds_u, emit_rng_u]
+    have := foldl_act_ds_rng_u m.cls d { w with ds := rest }
     exact ⟨trivial, this.1, this.2⟩
 
 /-- `resolveRandom` takes exactly one number from the generator stream (none if it is exhausted). -/
-theorem resolveRandom_rng [UtilArith U] (w : World U) (hid : Nat) (us : List U) (sum : U) (rks : List Int) (top : Int) :
+theorem resolveRandom_rng_u [UtilArith U] (w : World U) (hid : Nat) (us : List U) (sum : U) (rks : List Int) (top : Int) :
     (w.resolveRandom hid us sum rks top).1.rng = w.rng.tail := by
   unfold resolveRandom
   split
